@@ -2,21 +2,26 @@
    descriptors / registry : Gen.UaTypes (regenerated from package ua by reflection on every run)
    decoder                : Model.Codec.decode (hand-written transcription of decode.go, buffer.go and the eight
                             hand-written Decode methods; tied by the codecharness correspondence)
-   fuel                   = nesting depth of Variant / DataValue / DiagnosticInfo / ExtensionObject bodies
-                            = depth of the Go recursion; OutOfFuel models Go's fatal stack overflow.
-   PROVED: panic-freedom and termination below the nesting budget, for every registry / descriptor / input
-   (C02_partial_depth, C02_total, C02_depth); the memory part of the statement is REFUTED three ways (nesting depth,
-   nesting amplification, dimension count) and PROVED in the form the three findings leave possible
-   (C02_partial_memory): with nesting budget d the allocation is at most
-       (d + 1) * ((3854 + 7 * len) * len + 5770137)   bytes for an input of len bytes
-   i.e. linear in the input per nesting level, plus the quadratic cost of reshaping multi-dimensional arrays
-   (known finding variant-dimension-count) and 5.8 MB of slack per level (65535 element slots of a Variant array are
-   allocated before the first element is read: known finding nesting-amplification).  The cost model's constants are
-   validated against the Go allocator from below by the check (TotalAlloc of every hostile decode). *)
+   fuel                   = the nesting levels left for Variant / DataValue / DiagnosticInfo / ExtensionObject values inside
+                            each other: ua.MaxNestingLevel (100) at the top; at level 0 a nested decoder fails with
+                            StatusBadEncodingLimitsExceeded.  The model never produces OutOfFuel any more.
+   PROVED, FULL (C02_full : C02_statement), for every generated descriptor and EVERY input:
+     - no Panic, no OutOfFuel (C02_safe for any registry / descriptor / number of levels);
+     - recursion depth <= ua.MaxNestingLevel: by construction of the decoder, C02_depth (what is returned is nested at most
+       that deep) and C02_nesting_rejected (a chain one longer is an error after 101 steps);
+     - memory: alloc <= 478066 * len + 310685 bytes (C02_memory).  The factor is
+       1 + RM + (MaxNestingLevel + 1) * (RM + 2 CM + 1101) with RM = 1648 the largest number of element-slot bytes that the
+       registered types allocate per input byte at one level (decodeSlice allocates n slots for n <= remaining bytes) and
+       CM = 984 their pointer targets: about three times what the code really does in the worst case (one chain of 100
+       extension object bodies each opening its nested arrays): it is linear, it is not small.
+   The three former refutations (known findings nesting-depth, nesting-amplification, variant-dimension-count, fixed in /repo by
+   ua.MaxNestingLevel, "array length <= remaining bytes" and ua.MaxVariantArrayDimensions) are kept as regressions on the
+   model (C02_fixed_findings), replayed on the implementation by the hostile stream; they are regressions and not
+   'before the fix' refutations because the unbounded decoder no longer exists in the model. *)
 From Coq Require Import NArith ZArith List Bool Lia.
 From Coq.Strings Require Import Byte.
 From Opcua Require Import Model.CodecTypes Model.Codec Model.CodecEq Proofs.CodecTotal Proofs.CodecCost Proofs.CodecCostCustoms
-  Proofs.CodecCostMain Proofs.CodecFuel Model.CodecWf Model.CodecWfAll Proofs.CodecSplit Proofs.CodecCustomsC Proofs.CodecDecWf Gen.UaTypes.
+  Proofs.CodecCostMain Model.CodecWf Model.CodecWfAll Proofs.CodecSplit Proofs.CodecCustomsC Proofs.CodecDecWf Proofs.CodecDecDepth Gen.UaTypes.
 Import ListNotations.
 Open Scope Z_scope.
 
@@ -25,54 +30,51 @@ Definition gen_reg : list (Z * Z * ty) := mk_reg eo_table.
 Definition all_tys : list ty :=
   all_structs ++ map TPtr all_structs ++ map snd variant_types ++ [xml_body_ty].
 
-(* Go's recursion budget in decoder frames (1 GB maximum stack / about 400 bytes per nesting level), and the memory
-   budget of the property: "a small constant factor of the input length plus a fixed bound" *)
-Definition go_depth_budget : nat := 2500000.
-Definition mem_A : N := 1024.
-Definition mem_B : N := 16777216.
+(* the memory budget of the property, "a constant factor of the input length plus a fixed bound", with the constants that are
+   proved below *)
+Definition mem_A : N := 478066.
+Definition mem_B : N := 310685.
 
 Definition no_crash {A} (r : res A) : Prop := (forall al, r <> Panic al) /\ r <> OutOfFuel.
 
-(* the property at full strength *)
+(* the property at full strength: every descriptor the code decodes into, every input, the decoder as the code runs it *)
 Definition C02_statement : Prop :=
-  forall t bs, ptr_ok t = true ->
-    no_crash (decode gen_reg go_depth_budget t bs) /\
-    (res_alloc (decode gen_reg go_depth_budget t bs) <= mem_A * N.of_nat (length bs) + mem_B)%N.
+  forall t bs, In t all_tys ->
+    no_crash (decode gen_reg max_nesting_level t bs) /\
+    (res_alloc (decode gen_reg max_nesting_level t bs) <= mem_A * N.of_nat (length bs) + mem_B)%N.
 
 (* side conditions of the generic theorems hold for what the code registers today (re-checked on every run) *)
 Theorem C02_registry :
   reg_ok gen_reg = true /\ forallb ptr_ok all_tys = true /\ forallb slices_ok all_tys = true /\
   map (fun r => variant_ty (fst r)) variant_types = map snd variant_types /\
-  go_MaxVariantArrayLength = max_variant_array_length /\ go_null = null32.
+  go_MaxVariantArrayLength = max_variant_array_length /\ go_null = null32 /\
+  go_MaxVariantArrayDimensions = max_variant_array_dimensions /\ go_MaxNestingLevel = max_nesting_level.
 Proof. vm_compute. repeat split; reflexivity. Qed.
 
-(* FULL for panic-freedom and termination below the nesting budget: any registry satisfying reg_ok, any descriptor
-   without pointer-to-pointer, any byte string shorter than the budget d: no Panic, no OutOfFuel, and the unread rest is
-   no longer than the input *)
-Theorem C02_partial_depth : forall reg t bs d, reg_ok reg = true -> ptr_ok t = true -> (length bs < d)%nat ->
-  fine bs (decode reg d t bs).
+(* FULL, panic-freedom and termination: any registry satisfying reg_ok, any descriptor without pointer-to-pointer, any
+   number of nesting levels, any input: no Panic, no OutOfFuel, and the unread rest is no longer than the input *)
+Theorem C02_safe : forall reg t bs f, reg_ok reg = true -> ptr_ok t = true -> fine bs (decode reg f t bs).
 Proof.
-  intros reg t bs d Hreg Ht Hd. exact (decode_safe reg Hreg d t (length bs) Ht Hd bs (le_n _)).
+  intros reg t bs f Hreg Ht. exact (decode_safe reg Hreg f t (length bs) Ht bs (le_n _)).
 Qed.
 
-(* the same, in the shape of the design: with fuel_for bs nothing bad happens, for all inputs, at Gen's registry *)
-Theorem C02_total : forall t bs, In t all_tys ->
-  exists r, decode gen_reg (fuel_for bs) t bs = r /\ no_crash r.
+Theorem C02_total : forall t bs, In t all_tys -> no_crash (decode gen_reg max_nesting_level t bs).
 Proof.
-  intros t bs Hin. eexists. split; [reflexivity|].
+  intros t bs Hin.
   assert (Ht : ptr_ok t = true).
   { destruct C02_registry as [_ [H _]]. rewrite forallb_forall in H. apply H. exact Hin. }
-  pose proof (C02_partial_depth gen_reg t bs (fuel_for bs) (proj1 C02_registry) Ht ltac:(unfold fuel_for; lia)) as Hf.
-  unfold no_crash. destruct (decode gen_reg (fuel_for bs) t bs); cbn in Hf; split; try intros al'; try discriminate; contradiction.
+  pose proof (C02_safe gen_reg t bs max_nesting_level (proj1 C02_registry) Ht) as Hf.
+  unfold no_crash. destruct (decode gen_reg max_nesting_level t bs); cbn in Hf; split; try intros al'; try discriminate; contradiction.
 Qed.
 
-(* recursion depth is at most the input length: an input of n bytes needs at most n+1 nesting levels *)
-Theorem C02_depth : forall t bs, ptr_ok t = true -> decode gen_reg (S (length bs)) t bs <> OutOfFuel.
-Proof.
-  intros t bs Ht E.
-  pose proof (C02_partial_depth gen_reg t bs (S (length bs)) (proj1 C02_registry) Ht ltac:(lia)) as Hf.
-  rewrite E in Hf. exact Hf.
-Qed.
+(* recursion depth: a value the decoder returns is nested at most ua.MaxNestingLevel deep (inputs up to MaxInt32 bytes) ... *)
+Theorem C02_depth : forall reg f t bs v rest al, blen bs <= max_int32 -> decode reg f t bs = Ok v rest al -> (vdepth v <= f)%nat.
+Proof. intros reg f t bs v rest al Hs E. exact (proj1 (decode_depth reg f t bs v rest al Hs E)). Qed.
+
+(* ... and a chain of Variants one longer than the levels left is rejected with an error (before the fix: recursion as deep
+   as the input is long, Go's fatal stack overflow; known finding nesting-depth) *)
+Theorem C02_nesting_rejected : forall reg f bs, res_is_err (decode reg f (TCustom CVariant) (repeat x18 f ++ bs)) = true.
+Proof. intros reg f bs. apply deep_variant. Qed.
 
 (* ---- the dimension product (variant.go: "the product is computed in 64 bit and checked after every step") ----
    The model multiplies like Go: int64, wrapping modulo 2^64 (Codec.mul64).  The guard after every step is what keeps
@@ -123,73 +125,42 @@ Theorem C02_cost_registry :
   (scst (TPtr qualified_name_ty) <=? cost_CM)%N = true.
 Proof. vm_compute. repeat split; reflexivity. Qed.
 
-(* PARTIAL (memory): any descriptor the code decodes into, any input, any nesting budget d (deeper inputs: OutOfFuel) *)
-Theorem C02_partial_memory : forall d t bs, In t all_tys ->
-  let len := N.of_nat (length bs) in
-  (res_alloc (decode gen_reg d t bs) <= (N.of_nat d + 1) * ((3854 + 7 * len) * len + 5770137))%N.
+(* FULL (memory): every descriptor the code decodes into, every input *)
+Theorem C02_memory : forall t bs, In t all_tys ->
+  (res_alloc (decode gen_reg max_nesting_level t bs) <= mem_A * N.of_nat (length bs) + mem_B)%N.
 Proof.
-  intros d t bs Hin len. destruct C02_cost_registry as [Hreg [Hxml [Hall Hq]]].
+  intros t bs Hin. destruct C02_cost_registry as [Hreg [Hxml [Hall Hq]]].
   rewrite forallb_forall in Hall. specialize (Hall t Hin).
   apply andb_true_iff in Hall. destruct Hall as [Hall H3]. apply andb_true_iff in Hall. destruct Hall as [H1 H2].
   apply N.leb_le in H2, H3, Hq.
-  pose proof (alloc_bound len gen_reg cost_RM cost_CM cost_SM Hreg (variant_entry _ _ _ Hq) Hxml d t bs H1 (N.le_refl _)) as H.
-  unfold DA, DE, KV, cost_RM, cost_CM, cost_SM in *. fold len in H. unfold ln in H. fold len in H.
-  set (D := N.of_nat d) in *. set (S := srate t) in *.
+  pose proof (alloc_bound (N.of_nat (length bs)) gen_reg cost_RM cost_CM cost_SM Hreg (variant_entry _ _ _ Hq) Hxml
+                max_nesting_level t bs H1 (N.le_refl _)) as H.
+  unfold DA, DE, cost_RM, cost_CM, cost_SM, mem_A, mem_B in *. unfold ln in H.
+  change (N.of_nat (S max_nesting_level)) with 101%N in H.
+  set (len := N.of_nat (length bs)) in *. set (S := srate t) in *.
   assert (Hm : (S * len <= 1648 * len)%N) by (apply N.mul_le_mono_r; exact H2).
   nia.
 Qed.
 
-(* the budget is only a budget: an input whose nesting stays below d (the decode with budget d does not run out) is decoded
-   identically with every larger budget -- value, rest and allocation; so the bound with d holds for Go's recursion *)
-Theorem C02_fuel_monotone : forall reg d D t bs, (d <= D)%nat -> decode reg d t bs <> OutOfFuel ->
-  decode reg D t bs = decode reg d t bs.
-Proof.
-  intros reg d D t bs Hd H. replace D with (d + (D - d))%nat by lia. apply decode_fuel_mono. exact H.
-Qed.
+Theorem C02_full : C02_statement.
+Proof. intros t bs Hin. split; [apply C02_total; exact Hin|apply C02_memory; exact Hin]. Qed.
 
-Theorem C02_partial_memory_depth : forall d D t bs, In t all_tys -> (d <= D)%nat -> decode gen_reg d t bs <> OutOfFuel ->
-  let len := N.of_nat (length bs) in
-  (res_alloc (decode gen_reg D t bs) <= (N.of_nat d + 1) * ((3854 + 7 * len) * len + 5770137))%N.
-Proof.
-  intros d D t bs Hin Hd H len. rewrite (C02_fuel_monotone gen_reg d D t bs Hd H). apply C02_partial_memory. exact Hin.
-Qed.
-
-(* what the bound means in numbers, with the limit of 100 levels that the TODOs in variant.go ask for and a 64 KiB message:
-   3.1e12 bytes with the dimension term (7 * len per byte and level: finding variant-dimension-count), 2.6e10 without it, of
-   which 101 * 5.8 MB are the per-level slack (finding nesting-amplification): the bound is a statement about the SHAPE of the
-   growth (linear per level + quadratic reshaping), not a usable resource limit -- that needs the limits the findings ask for *)
-Example C02_memory_numbers :
-  ((100 + 1) * ((3854 + 7 * 65536) * 65536 + 5770137) = 3062634812253 /\
-   (100 + 1) * (3854 * 65536 + 5770137) = 26092933981)%N.
-Proof. vm_compute. split; reflexivity. Qed.
-
-(* REFUTED (1): nesting is not limited by the code (variant.go: "todo(fs): limit recursion depth to 100"), only by the
-   input length: go_depth_budget bytes 0x18 (a Variant holding a Variant holding ...) exhaust the budget.
-   Known finding C02 nesting-depth; replayed on the implementation by the check (the child dies of stack overflow). *)
-Theorem C02_refuted_depth : ~ C02_statement.
-Proof.
-  intros H. destruct (H (TCustom CVariant) (repeat x18 go_depth_budget) eq_refl) as [[_ Hf] _].
-  apply Hf. apply deep_variant.
-Qed.
-
-(* REFUTED (2): memory is not linear in the input: 50 nested arrays (250 bytes) each announcing 65535 elements make the
-   decoder allocate 65535 element slots per level before reading anything.  Known finding C02 nesting-amplification. *)
+(* the former refutations, now regressions (the same witnesses):
+   (1) nesting depth: 2.5 million nested Variants used to need as many Go stack frames: rejected at level 101 with 5.7 KB;
+   (2) nesting amplification: 50 nested arrays each announcing 65535 elements used to allocate 47 MB from 250 bytes: the first
+       announcement exceeds the remaining bytes, nothing is allocated;
+   (3) dimension count: 6000 dimensions used to cost memory quadratic in their number: more than 32 are rejected *)
 Definition amplification_witness : bytes := concat (repeat [x98; xff; xff; x00; x00] 50).
-Theorem C02_refuted_amplification :
-  (res_alloc (decode gen_reg (fuel_for amplification_witness) (TCustom CVariant) amplification_witness)
-   > mem_A * N.of_nat (length amplification_witness) + mem_B)%N.
-Proof. vm_compute. reflexivity. Qed.
-
-(* REFUTED (3): the number of array dimensions is only bounded by the input; split() builds one slice type per
-   dimension whose name grows with the depth: quadratic memory.  Known finding C02 variant-dimension-count. *)
 Definition dims_witness (k : nat) : bytes :=
   [xc6] ++ le 4 1 ++ le 4 9 ++ le 4 (Z.of_nat k) ++ concat (repeat (le 4 1) k).
-Theorem C02_refuted_dimensions :
-  (res_alloc (decode gen_reg (fuel_for (dims_witness 6000)) (TCustom CVariant) (dims_witness 6000))
-   > mem_A * N.of_nat (length (dims_witness 6000)) + mem_B)%N.
-Proof. vm_compute. reflexivity. Qed.
+Theorem C02_fixed_findings :
+  (let r := decode gen_reg max_nesting_level (TCustom CVariant) (repeat x18 5000) in (res_class r =? 2) && (res_alloc r <? 6000)%N) = true /\
+  (let r := decode gen_reg max_nesting_level (TCustom CVariant) amplification_witness in (res_class r =? 1) && (res_alloc r <? 100)%N) = true /\
+  (let r := decode gen_reg max_nesting_level (TCustom CVariant) (dims_witness 6000) in (res_class r =? 2) && (res_alloc r <? 200)%N) = true /\
+  (let r := decode gen_reg max_nesting_level (TCustom CVariant) (dims_witness 32) in (res_class r =? 0) && (res_alloc r <? 10000)%N) = true.
+Proof. vm_compute. repeat split; reflexivity. Qed.
 
-(* the hypotheses of C02_partial_depth are satisfiable by real inputs: a ReadRequest with a hostile array prefix is
+(* real inputs: a ReadRequest with a hostile array prefix is
    rejected with an error (after the fix of decodeSlice), allocating nothing for the announced 0x03ffffff elements *)
 Example C02_row3_rejected :
   let bs := [x00;x00] ++ repeat x00 8 ++ le 4 0 ++ le 4 0 ++ le 4 null32 ++ le 4 0 ++ [x00;x00;x00]
@@ -210,16 +181,14 @@ Example C02_row2_rejected :
 Proof. vm_compute. reflexivity. Qed.
 
 Print Assumptions C02_registry.
-Print Assumptions C02_partial_depth.
+Print Assumptions C02_safe.
 Print Assumptions C02_total.
 Print Assumptions C02_depth.
+Print Assumptions C02_nesting_rejected.
 Print Assumptions C02_dims_guard.
 Print Assumptions C02_dims_wrap_rejected.
 Print Assumptions C02_split_only_exact.
 Print Assumptions C02_cost_registry.
-Print Assumptions C02_partial_memory.
-Print Assumptions C02_fuel_monotone.
-Print Assumptions C02_partial_memory_depth.
-Print Assumptions C02_refuted_depth.
-Print Assumptions C02_refuted_amplification.
-Print Assumptions C02_refuted_dimensions.
+Print Assumptions C02_memory.
+Print Assumptions C02_full.
+Print Assumptions C02_fixed_findings.
